@@ -748,3 +748,173 @@ def check_guard_table(ctx, table):
                           for (p, pol) in guards)[:90]),
                       '`{}` does not run under {}: {}'.format(
                           what[:60], ' and '.join(missing)[:120], label), fn=fn, node=site)
+
+
+_LIKE = ('zeros_like', 'empty_like', 'ones_like', 'full_like')
+_SHAPE_ONLY = ('asanyarray', 'asarray', 'array', 'atleast_1d', 'atleast_2d', 'atleast_3d',
+               'reshape', 'squeeze', 'ravel', 'flatten', 'copy', 'transpose', 'expand_dims')
+
+_DTYPE_EXAMPLE = '''
+def f(x, g):
+    x = np.asanyarray(x)
+    x = x.reshape((-1, 2))
+    out = np.zeros_like(x)
+    for i in range(len(out)):
+        out[i] = g(x[i])
+    return out
+
+def ok_float(x, g):
+    x = np.asanyarray(x, dtype=float)
+    out = np.zeros_like(x)
+    out[0] = g(x)
+    return out
+
+def ok_dtype(x, g):
+    out = np.zeros_like(x, dtype=float)
+    out[0] = g(x)
+    return out
+
+def ok_copy(x, mask):
+    out = np.empty_like(x)
+    out[mask] = x[mask]
+    return out
+'''
+
+
+def inherited_dtype_sweep(ctx, modules=None):
+    """Result buffers that inherit the dtype of a caller's array and then receive computed values.
+
+    `buf = np.zeros_like(X)` (no dtype=) where X is a parameter that went through nothing but
+    shape-only conversions (asanyarray / reshape / indexing ...) without a dtype, `buf[...] = v`
+    with v not a selection of X itself, and buf returned: for an integer-typed X (a list of ints,
+    an integer start point) numpy truncates v to integers on assignment, silently.
+    Reported per buffer.  Returns the number of buffers examined."""
+    n_seen = 0
+
+    def shape_only_source(e, fnode, seen=frozenset()):
+        """name of the parameter e is a shape-only view of, else None"""
+        params = [a.arg for a in fnode.args.posonlyargs + fnode.args.args +
+                  fnode.args.kwonlyargs]
+        if isinstance(e, ast.Name):
+            if e.id in seen:
+                return e.id if e.id in params else None
+            defs = [n for n in ast.walk(fnode) if isinstance(n, ast.Assign) and
+                    any(isinstance(t, ast.Name) and t.id == e.id for t in n.targets)]
+            other = [n for n in ast.walk(fnode)
+                     if isinstance(n, (ast.AugAssign, ast.For, ast.With, ast.NamedExpr)) and
+                     any(isinstance(x, ast.Name) and x.id == e.id and
+                         isinstance(x.ctx, ast.Store) for x in ast.walk(n)
+                         if not isinstance(n, ast.For) or x is n.target or
+                         (isinstance(n.target, ast.Tuple) and x in n.target.elts))]
+            if other:
+                return None
+            if not defs:
+                return e.id if e.id in params else None
+            srcs = set(shape_only_source(d.value, fnode, seen | {e.id}) for d in defs)
+            if e.id in params:
+                srcs.add(e.id)
+            if len(srcs) == 1 and None not in srcs:
+                return srcs.pop()
+            return None
+        if isinstance(e, ast.Subscript):
+            return shape_only_source(e.value, fnode, seen)
+        if isinstance(e, ast.Call):
+            kw = [k.arg for k in e.keywords]
+            if 'dtype' in kw:
+                return None
+            f = e.func
+            if isinstance(f, ast.Attribute) and f.attr in _SHAPE_ONLY:
+                if isinstance(f.value, ast.Name) and f.value.id in ('np', 'numpy'):
+                    if len(e.args) >= 2 and f.attr in ('asanyarray', 'asarray', 'array'):
+                        return None      # positional dtype
+                    return shape_only_source(e.args[0], fnode, seen) if e.args else None
+                return shape_only_source(f.value, fnode, seen)
+        return None
+
+    def selection_of(v, pname, fnode):
+        """v only selects / copies values of the same source array"""
+        return shape_only_source(v, fnode) == pname
+    mods = modules if modules is not None else [
+        m for m in ctx.repo.modules.values()
+        if m.name.startswith('elfi') and not m.name.startswith('elfi.examples') and
+        not m.name.startswith('elfi.visualization')]
+    for m in mods:
+        for f in m.all_functions:
+            fnode = getattr(f, 'node', None)
+            if fnode is None or isinstance(fnode, ast.Lambda):
+                continue
+            for n in own_nodes(fnode):
+                if not (isinstance(n, ast.Assign) and len(n.targets) == 1 and
+                        isinstance(n.targets[0], ast.Name) and isinstance(n.value, ast.Call)
+                        and isinstance(n.value.func, ast.Attribute) and
+                        n.value.func.attr in _LIKE and n.value.args):
+                    continue
+                call = n.value
+                if any(k.arg == 'dtype' for k in call.keywords) or len(call.args) >= \
+                        (3 if call.func.attr == 'full_like' else 2):
+                    continue
+                buf = n.targets[0].id
+                src_p = shape_only_source(call.args[0], fnode)
+                stores = [s for s in own_nodes(fnode) if isinstance(s, ast.Assign) and
+                          any(isinstance(t, ast.Subscript) and isinstance(t.value, ast.Name) and
+                              t.value.id == buf for t in s.targets)]
+                returned = any(isinstance(r, ast.Return) and r.value is not None and
+                               any(isinstance(x, ast.Name) and x.id == buf
+                                   for x in ast.walk(r.value)) for r in own_nodes(fnode))
+                if not stores or not returned:
+                    continue
+                n_seen += 1
+                computed = [s for s in stores
+                            if src_p is None or not selection_of(s.value, src_p, fnode)]
+                # constants (0, nan masks) are not computed values
+                computed = [s for s in computed if not isinstance(s.value, ast.Constant)]
+                if src_p is not None and computed:
+                    ctx.bad(f, 'result buffer inherits the dtype of `{}`'.format(src_p),
+                            '`{} = {}` takes the dtype of the caller\'s `{}` (only shape '
+                            'conversions in between) and then receives computed values (`{}`): '
+                            'for an integer-typed argument they are truncated to integers'
+                            .format(buf, src(call)[:40], src_p, src(computed[0])[:50]), fn=f,
+                            node=n)
+                else:
+                    ctx.ok(f, 'result buffer `{}` has its own dtype or only copies'.format(buf),
+                           src(n)[:60], fn=f, node=n) if hasattr(ctx, 'ok') else None
+    return n_seen
+
+
+def inherited_dtype_obligation(ctx):
+    """Obligation body: self-test on a positive example, then the package."""
+    import ast as _ast
+    tree = _ast.parse(_DTYPE_EXAMPLE)
+    for n in _ast.walk(tree):
+        for c in _ast.iter_child_nodes(n):
+            c._parent = n
+    fs = []
+    for fn_ in tree.body:
+        class _F:
+            pass
+        o = _F()
+        o.node, o.qname, o.name = fn_, 'example:' + fn_.name, fn_.name
+        fs.append(o)
+
+    class _M:
+        name = 'elfi._dtype_example'
+        all_functions = fs
+
+    class _C:
+        found = []
+
+        def bad(self, f, role, detail, fn=None, node=None):
+            self.found.append(f.name)
+
+        def ok(self, *a, **k):
+            pass
+    probe = _C()
+    inherited_dtype_sweep(probe, modules=[_M])
+    if probe.found != ['f']:
+        raise AnalysisError('dtype-inheritance sweep self-test failed: {}'.format(probe.found))
+    n = inherited_dtype_sweep(ctx)
+    if n == 0:
+        nf = sum(len(m.all_functions) for m in ctx.repo.modules.values()
+                 if m.name.startswith('elfi') and not m.name.startswith('elfi.examples'))
+        ctx.ok('elfi', 'no returned *_like result buffer',
+               '{} functions scanned; positive example matched'.format(nf))
